@@ -81,6 +81,9 @@ impl<K: Eq + Hash + Clone + Send + Sync + 'static, V: Send + Sync + 'static, T>
                 .wait_or_work(key, || {
                     let value = init();
 
+                    #[cfg(feature = "verif")]
+                    crate::verif::point("wcc:get:after_init");
+
                     self.tiny_lfu.entry(key.clone(), |entry| match entry {
                         tiny_lfu::Entry::Vacant(vaccant_entry) => {
                             vaccant_entry.insert(Entry {
